@@ -9,6 +9,9 @@ removal and simplification) never change which strings match.
 (anchors, word boundaries), both regexps match the span or neither does — for every fold table `env`.
 -/
 import ZoektModel.C27.Lemmas
+import ZoektModel.C27.Printer
+import ZoektModel.C27.EndsSound
+import ZoektModel.C27.Spec
 namespace ZoektModel.C27
 open ZoektModel.Regex
 
@@ -134,7 +137,66 @@ theorem optimizeRegexp_equiv_partial (isPrint : Nat → Bool) (parse : List Char
       · exact hr
       · rename_i r2 h2; exact (hp _ _ h2).2
 
+/-! ### the printer: the printout, read with the grammar's precedences, means what the tree means -/
+
+/-- **printer / precedence theorem**: for every tree without empty literals and empty alternations (the shapes
+    `syntax.Parse` produces), the character string `RegexpString` prints is the rendering of a token sequence that the
+    RE2 grammar (alternation < concatenation < repetition < atom or group) derives, at alternation level, as a regexp
+    matching exactly the same strings as the tree.  Token level: that `syntax.Parse` tokenises the characters this way
+    is validated by the correspondence run, not proved. -/
+theorem print_derives (env : Env) (isPrint : Nat → Bool) (r : Re) (hw : WFP r) :
+    ∃ ts xs, printRe isPrint r = render isPrint ts ∧ DAlt ts xs ∧ Equiv env (.alt xs) r := by
+  obtain ⟨xs, hd, e⟩ := (print_levels env r hw).alt
+  exact ⟨printTok r, xs, (render_printTok isPrint r).symm, hd, e⟩
+
+/-- **the inserted `(?:…)` suffice for repetitions**: what the printer puts before `*`, `+`, `?`, `{n,m}` is a single
+    atom or group of the grammar, denoting the operand. -/
+theorem printer_parenthesises_operand (env : Env) (sub : Re) (hw : WFP sub) :
+    ∃ r', DBase (wrapTok (needsGroup sub) (printTok sub)) r' ∧ Equiv env r' sub :=
+  operand_base (print_levels env sub hw).alt (print_levels env sub hw).base
+
+/-- **… and for concatenations**: each element of a concatenation is printed as a sequence of repetitions/atoms
+    (an alternation only inside a group), so the juxtaposition denotes the concatenation. -/
+theorem printer_parenthesises_concat (env : Env) (subs : List Re) (hw : WFPL subs) :
+    ∃ xs, DConcat (printTokConcat subs) xs ∧ Equiv env (.concat xs) (.concat subs) :=
+  print_levels_concat env subs hw
+
+/-- the token printer is the character printer -/
+theorem print_tokens_render (isPrint : Nat → Bool) (r : Re) : render isPrint (printTok r) = printRe isPrint r :=
+  render_printTok isPrint r
+
+/-! ### the executable matcher of the specification is sound for the relation the theorems are about -/
+
+/-- **`matchSpan` (the test `validFindAll` / `checkP` apply to every span an engine reports) implies `Matches`**:
+    a span accepted by the executable specification is a match in the sense of the theorems above. -/
+theorem matchSpan_sound (env : Env) (s : Array Nat) (r : Re) (i j : Nat) (h : matchSpan env s r i j = true) :
+    Matches env s r i j := by
+  unfold matchSpan at h
+  exact ends_sound r i j (by simpa using h)
+
+/-- every span of a result list accepted by `validFindAll` is a match of the tree -/
+theorem validFindAll_spans_match (env : Env) (s : Array Nat) (r : Re) :
+    ∀ (L : List (Nat × Nat)) (prevEnd : Option Nat) (lo : Nat), validFindAllAux env s r L prevEnd lo = true →
+      ∀ p ∈ L, Matches env s r p.1 p.2
+  | [], _, _, _, p, hp => by simp at hp
+  | (a, b) :: rest, prevEnd, lo, h, p, hp => by
+    simp only [validFindAllAux, Bool.and_eq_true] at h
+    rcases List.mem_cons.mp hp with rfl | hp
+    · exact matchSpan_sound env s r _ _ h.1.1.1.2
+    · exact validFindAll_spans_match env s r rest _ _ h.2 p hp
+
 /-! ### non-vacuity -/
+
+/-- `(a|b)*c`: the printer groups the alternation under the star, and the derivation exists -/
+example : printTok (.concat [.star false (.alt [.lit [97] false, .lit [98] false]), .lit [99] false]) =
+    [.openNC, .atom (.litRune 97), .bar, .atom (.litRune 98), .close, .post (.star false), .atom (.litRune 99)] := by rfl
+example : WFP (.concat [.star false (.alt [.lit [97] false, .lit [98] false]), .lit [99] false]) := by
+  simp [WFP, WFPL]
+/-- a star printed without its group is *not* a base of the grammar: `a*` followed by `*` has no derivation as a
+    repetition (the grammar, like Go's parser, has no double postfix) -/
+example : ¬ ∃ r, DBase [.atom (.litRune 97), .post (.star false)] r := by
+  rintro ⟨r, h⟩; cases h
+
 
 /-- `(a)|b` loses its group and still matches "b" -/
 example : uncapture (.alt [.cap "" (.lit [97] false), .lit [98] false]) =
